@@ -1,5 +1,6 @@
 use crate::engine::{PropRun, RunCfg};
 
+pub mod c01_04;
 pub mod c12;
 pub mod c16;
 
@@ -8,6 +9,10 @@ pub fn run(cfg: RunCfg, verif_dir: &str) -> i32 {
     let id = cfg.property.clone();
     let mut run = PropRun::new(cfg, verif_dir);
     match id.as_str() {
+        "C01" => c01_04::run_c01(&mut run),
+        "C02" => c01_04::run_c02(&mut run),
+        "C03" => c01_04::run_c03(&mut run),
+        "C04" => c01_04::run_c04(&mut run),
         "C12" => c12::run(&mut run),
         "C16" => c16::run(&mut run),
         _ => {
@@ -21,6 +26,7 @@ pub fn run(cfg: RunCfg, verif_dir: &str) -> i32 {
 /// replay a failure file; Ok(()) if the case passes now
 pub fn replay(id: &str, suite: &str, path: &str) -> Result<(), String> {
     match id {
+        "C01" | "C02" | "C03" | "C04" => c01_04::replay(id, suite, path),
         "C12" => c12::replay(suite, path),
         "C16" => c16::replay(suite, path),
         _ => Err(format!("unknown property {id}")),
